@@ -362,7 +362,9 @@ func genLoop(rng *vkit.Rng, k int) lcase {
 			return lcase{"edge-over-pole", []s2.Point{raw(x, 0, z), raw(-x, 0, z), pt(0, -1, 0.2)}, nil}
 		case 3: // a vertex at the pole
 			n := 3 + rng.Intn(40)
-			pts := starPoints(pt(0.3, 0.2, 1), n, func(int) float64 { return 0.4 })
+			// the pole is well inside the inscribed circle (even for n = 3), so moving one
+			// vertex onto it keeps the loop simple
+			pts := starPoints(pt(0.08, 0.05, 1), n, func(int) float64 { return 0.4 })
 			pts[rng.Intn(n)] = raw(0, 0, 1)
 			return lcase{"vertex-at-pole", pts, nil}
 		default: // a vertex equal to OriginPoint
